@@ -270,4 +270,17 @@ MUTANTS_BATCH7 = {
  'C34_unpadded_code_in_stack': ('fuel-vm','fuel-vm/src/interpreter/flow.rs', ".checked_add(code_size_padded)", ".checked_add(code_size)",1),
 }
 
-SUITE_SURVIVORS = ['C02_no_vec_limit','C03_msg_gas_not_zeroed','C10_single_leaf_extra_proof','C14_excl_no_keycheck','C15_predicate_owner_no_seed','C17_ed25519_nonstrict','C19_coin_asset_from_messages','C20_gas_mismatch','C21_exp_zero_base','C25_fetch_gt_ssp','C26_mcp_as_mcl','C28_variable_not_zeroed','C29_noop_free','C31_cache_not_cleared','C33_supd_maxlen_off_by_one','C36_blob_zerofill_eq','C24_cb_noowner','C24_srwq_noowner','C04_storage_slot_offset_past_end']
+SUITE_SURVIVORS = ['C02_no_vec_limit','C03_msg_gas_not_zeroed','C10_single_leaf_extra_proof','C14_excl_no_keycheck','C15_predicate_owner_no_seed','C17_ed25519_nonstrict','C19_coin_asset_from_messages','C20_gas_mismatch','C21_exp_zero_base','C25_fetch_gt_ssp','C26_mcp_as_mcl','C28_variable_not_zeroed','C29_noop_free','C31_cache_not_cleared','C33_supd_maxlen_off_by_one','C36_blob_zerofill_eq','C24_cb_noowner','C24_srwq_noowner','C04_storage_slot_offset_past_end','C05_upload_proof_index_past_end','C34_context_not_restored']
+
+MUTANTS_BATCH9 = {
+ 'C34_context_not_restored': ('fuel-vm','fuel-vm/src/interpreter/flow.rs', "            set_frame_pointer(context, registers.fp_mut(), fp);\n", "            let _ = (&context, fp);\n",1),
+ 'C05_upload_proof_index_past_end': ('fuel-tx','fuel-tx/src/transaction/types/upload.rs', "            if idx < self.body.proof_set.len() {", "            if idx <= self.body.proof_set.len() {",1),
+}
+
+MUTANTS_BATCH8 = {
+ 'C06_policies_json_new_layout': ('fuel-tx','fuel-tx/src/transaction/policies.rs', """                                    if bits.contains(bit) {
+                                        tmp_values[index] =
+                                                *decoded_values""", """                                    if bits.contains(bit) {
+                                        tmp_values[decoded_index] =
+                                                *decoded_values""",1),
+}
